@@ -1,3 +1,4 @@
+import H2.Proofs.MsgRefineReq
 import H2.Proofs.MsgRefineDecide
 import H2.Proofs.Msg
 import H2.Proofs.MsgRefine
@@ -221,5 +222,79 @@ example : (match absFin (feedBlock tightSrv demoStrm [[0x40, 0x7f, 97, 97, 97, 9
     some (.goAway Gen.c_CompressionError) := by decide +kernel
 
 end FullModel
+
+/-! ## APPEND (second section) to `lean/H2/Props/C20.lean`, before `end H2.Props.C20`; needs the extra import line
+`import H2.Proofs.MsgRefineReq`  (which imports `H2.Proofs.MsgRefineDecide`). -/
+
+/-! ## the long shape: HEADERS, DATA*, DATA(END_STREAM) through the body of the stream loop -/
+
+section LongShape
+open H2.Server H2.Server.Lock
+
+/-- **a refused frame is answered with the one frame `writeError` sends** (RST_STREAM(code) on the stream or GOAWAY(code)),
+nothing else — in particular no dispatch record -/
+theorem refused_frame_output (r : R) (uid : Nat) (fr : H2.Frame.Frame) (st1 : Strm) (e : SErr)
+    (hp : headersPrelude r fr = (r, true)) (he : (handleFrame r uid fr).2 = some e)
+    (hg1 : (handleFrame r uid fr).1.getStrm uid = some st1) (hresp : st1.responded = false) :
+    (knownStream r uid fr false).out = (handleFrame r uid fr).1.out ++ [errOut (handleFrame r uid fr).1 st1 e] :=
+  knownStream_refused r uid fr st1 e hp he hg1 hresp
+
+/-- **the full model dispatches this request iff it is well-formed**: `HEADERS(END_HEADERS), DATA*, DATA(END_STREAM)` on a
+stream the stream loop has just created, the frames handled one after the other by the body of the stream loop (`runReq`: up to
+the first frame that is answered), `hs` the fields the block decodes to, `dataLen` the DATA octets, within the limits. Besides
+WINDOW_UPDATEs exactly one output: the dispatch record with the message model's request view iff `WFRequest hs [] dataLen`,
+RST_STREAM(PROTOCOL_ERROR) otherwise -/
+theorem long_request_dispatched_iff_wf (r : R) (uid : Nat) (frH frL : H2.Frame.Frame) (ds : List H2.Frame.Frame) (st : Strm)
+    (O : Strm → Prop) (es es' : Bool) (prio : Option (Nat × Nat)) (frag dL : Bytes)
+    (ht : Tbl r uid st O) (hf : Fresh st) (htyp : frH.typ = Gen.c_FrameHeaders)
+    (hb : frH.body = .headers es true prio frag) (heh : H2.Frame.hasFlag frH.flags Gen.c_FlagEndHeaders = true)
+    (hes : H2.Frame.hasFlag frH.flags Gen.c_FlagEndStream = false)
+    (hprio : ∀ dep w, prio = some (dep, w) → (dep == st.id) = false)
+    (hp : headersPrelude r frH = (r, true))
+    (fs : List H2.Hpack.Field) (d : H2.Hpack.DecState) (hdec : decRun (frag.length + 1) r.s.dec true 0 frag = (fs, .clean d))
+    (hds : ∀ fr ∈ ds, PlainData fr)
+    (hLt : frL.typ = Gen.c_FrameData) (hLb : frL.body = .data es' dL)
+    (hLe : H2.Frame.hasFlag frL.flags Gen.c_FlagEndStream = true)
+    (hl : WithinLimits (cfgOf r.s.cfg) (fs.map kv) [] (tot ds + dL.length)) :
+    (WFRequest (fs.map kv) [] (tot ds + dL.length) →
+      ∃ v body, requestView (cfgOf r.s.cfg) (fs.map kv) [] (tot ds + dL.length) = some v ∧
+        sig (runReq r uid (frH :: (ds ++ [frL]))).out = sig r.out ++ [dispOut st.id v body]) ∧
+    (¬ WFRequest (fs.map kv) [] (tot ds + dL.length) →
+      sig (runReq r uid (frH :: (ds ++ [frL]))).out = sig r.out ++ [.rst st.id Gen.c_ProtocolError]) := by
+  have hnt : NoTrailerCL [] := by intro f hf; cases hf
+  obtain ⟨o, h1, h2⟩ := long_request_data r uid frH frL ds st O es es' prio frag dL ht hf htyp hb heh hes hprio hp fs d hdec
+    hds hLt hLb hLe
+  constructor
+  · intro hwf
+    have hv := (dispatched_iff_wf (cfgOf r.s.cfg) (fs.map kv) [] (tot ds + dL.length) hl hnt).mpr hwf
+    rw [hv] at h2
+    obtain ⟨v, body, e1, e2⟩ := h2
+    exact ⟨v, body, e1, by rw [h1, e2]⟩
+  · intro hwf
+    have hv := malformed_refused (cfgOf r.s.cfg) (fs.map kv) [] (tot ds + dL.length) hl hnt hwf
+    rw [hv] at h2
+    have : o = .rst st.id Gen.c_ProtocolError := h2
+    rw [h1, this]
+
+/-! non-vacuity: `POST / https, content-length: 3` then DATA "a", DATA "bc"+END_STREAM on the demo stream: evaluated on the full
+model (`runReq`), one dispatch record besides the WINDOW_UPDATEs; with `content-length: 5` RST_STREAM(PROTOCOL_ERROR) -/
+
+def postFrame (cl : Nat) : H2.Frame.Frame :=
+  { typ := Gen.c_FrameHeaders, flags := 4, stream := 1, length := 7,
+    body := .headers false true none [0x83, 0x87, 0x84, 0x0f, 0x0d, 0x01, cl] }
+def dataFrame (es : Bool) (b : Bytes) : H2.Frame.Frame :=
+  { typ := Gen.c_FrameData, flags := if es then 1 else 0, stream := 1, length := b.length, body := .data es b }
+
+example : PlainData (dataFrame false [97]) := ⟨rfl, ⟨_, _, rfl⟩, by decide⟩
+example : ((sig (runReq demoR 0 [postFrame 0x33, dataFrame false [97], dataFrame true [98, 99]]).out).map Out.toString) =
+    ["dispatch(1,m=504f5354,p=2f,a=-,f=-,b=3:294:96)"] := by decide +kernel
+example : ((sig (runReq demoR 0 [postFrame 0x35, dataFrame false [97], dataFrame true [98, 99]]).out).map Out.toString) =
+    ["RST(1,1)"] := by decide +kernel
+example : validate {} ((decRun 8 demoR.s.dec true 0 [0x83, 0x87, 0x84, 0x0f, 0x0d, 0x01, 0x33]).1.map kv) [] 3 = .dispatch := by
+  decide +kernel
+example : validate {} ((decRun 8 demoR.s.dec true 0 [0x83, 0x87, 0x84, 0x0f, 0x0d, 0x01, 0x35]).1.map kv) [] 3 =
+    .rst Gen.c_ProtocolError := by decide +kernel
+
+end LongShape
 
 end H2.Props.C20
